@@ -958,6 +958,63 @@ fn stack_rows(a: &Val, b: &Val) -> Option<Val> {
     }
 }
 
+/// Columns c0..c1 of a logical image as an image of its own (multiples of the horizontal
+/// subsampling for YUV).
+fn col_band(v: &Val, c0: usize, c1: usize) -> Val {
+    let cut = |s: &[u16], w: usize, h: usize, a: usize, b: usize| -> Vec<u16> { (0..h).flat_map(|y| s[y * w + a..y * w + b].to_vec()).collect() };
+    match v {
+        Val::Flt { class, w, h, t, p, bits } => {
+            Val::Flt { class: *class, w: c1 - c0, h: *h, t: *t, p: *p, bits: (0..*h).flat_map(|y| bits[y * w + c0..y * w + c1].to_vec()).collect() }
+        }
+        Val::Yuv { ty, cfg, planes } => {
+            let ss = cfg.ssx as usize;
+            let pl = |pv: &PlaneVal, ss: usize| PlaneVal { w: (c1 >> ss) - (c0 >> ss), h: pv.h, xdec: pv.xdec, ydec: pv.ydec, s: cut(&pv.s, pv.w, pv.h, c0 >> ss, c1 >> ss) };
+            Val::Yuv { ty: *ty, cfg: *cfg, planes: [pl(&planes[0], 0), pl(&planes[1], ss), pl(&planes[2], ss)] }
+        }
+    }
+}
+/// Two results side by side (the inverse of `col_band` on the output side).
+fn stack_cols(a: &Val, b: &Val) -> Option<Val> {
+    match (a, b) {
+        (Val::Flt { class, w, h, t, p, bits }, Val::Flt { class: c2, w: w2, h: h2, t: t2, p: p2, bits: b2 }) if (class, h, t, p) == (c2, h2, t2, p2) => {
+            let mut all = Vec::with_capacity(bits.len() + b2.len());
+            for y in 0..*h {
+                all.extend_from_slice(&bits[y * w..(y + 1) * w]);
+                all.extend_from_slice(&b2[y * w2..(y + 1) * w2]);
+            }
+            Some(Val::Flt { class: *class, w: w + w2, h: *h, t: *t, p: *p, bits: all })
+        }
+        (Val::Yuv { ty, cfg, planes }, Val::Yuv { ty: ty2, cfg: cfg2, planes: p2 }) if ty == ty2 && cfg == cfg2 => {
+            let join = |x: &PlaneVal, y: &PlaneVal| -> Option<PlaneVal> {
+                if (x.h, x.xdec, x.ydec) != (y.h, y.xdec, y.ydec) {
+                    return None;
+                }
+                let mut s = Vec::with_capacity(x.s.len() + y.s.len());
+                for r in 0..x.h {
+                    s.extend_from_slice(&x.s[r * x.w..(r + 1) * x.w]);
+                    s.extend_from_slice(&y.s[r * y.w..(r + 1) * y.w]);
+                }
+                Some(PlaneVal { w: x.w + y.w, h: x.h, xdec: x.xdec, ydec: x.ydec, s })
+            };
+            Some(Val::Yuv { ty: *ty, cfg: *cfg, planes: [join(&planes[0], &p2[0])?, join(&planes[1], &p2[1])?, join(&planes[2], &p2[2])?] })
+        }
+        _ => None,
+    }
+}
+
+fn luma_agrees(a: &Val, b: &Val, input: &Val) -> bool {
+    match (a, b) {
+        (Val::Yuv { ty, cfg, planes }, Val::Yuv { ty: t2, cfg: c2, planes: p2 }) => {
+            let only_luma = |p: &[PlaneVal; 3]| -> [PlaneVal; 3] {
+                let blank = |pv: &PlaneVal| PlaneVal { w: pv.w, h: pv.h, xdec: pv.xdec, ydec: pv.ydec, s: vec![0; pv.s.len()] };
+                [p[0].clone(), blank(&p[1]), blank(&p[2])]
+            };
+            vals_agree(&Val::Yuv { ty: *ty, cfg: *cfg, planes: only_luma(planes) }, &Val::Yuv { ty: *t2, cfg: *c2, planes: only_luma(p2) }, input)
+        }
+        _ => false,
+    }
+}
+
 /// I4b (C11): a conversion of the whole image equals the conversions of two horizontal bands of
 /// it, stacked. For images too large to decompose pixel by pixel this is what "output pixel i
 /// depends only on input pixel i" can still be held against: every pixel is compared, and a
@@ -969,29 +1026,42 @@ pub fn band_check(input: &Val, op: &Op, out: &Val, stats: &Stats) -> Option<(Str
     if w * h <= 20 || (cs.needs_cfg && cfg_has_unspecified(op.cfg)) {
         return None; // small images are decomposed completely; Unspecified resolution depends on the size
     }
-    let ss_in = match input {
-        Val::Yuv { cfg, .. } => cfg.ssy as usize,
-        Val::Flt { .. } => 0,
+    let (ssy_in, ssx_in) = match input {
+        Val::Yuv { cfg, .. } => (cfg.ssy as usize, cfg.ssx as usize),
+        Val::Flt { .. } => (0, 0),
     };
-    let ss_out = if cs.needs_cfg { op.cfg.ssy as usize } else { 0 };
-    let unit = 1usize << ss_in.max(ss_out);
-    if h < 2 * unit || h % unit != 0 {
-        return None;
-    }
-    // the cut: anywhere, in units of the vertical subsampling, drawn from the op's data seed
-    let cuts = h / unit - 1;
-    let r = unit * (1 + (crate::rng::mix(op.dataseed ^ 0x3333, (w * h) as u64) % cuts as u64) as usize);
-    let (top, bottom) = (row_band(input, 0, r), row_band(input, r, h));
+    let (ssy_out, ssx_out) = if cs.needs_cfg { (op.cfg.ssy as usize, op.cfg.ssx as usize) } else { (0, 0) };
+    let (unit_y, unit_x) = (1usize << ssy_in.max(ssy_out), 1usize << ssx_in.max(ssx_out));
+    let rows_ok = h >= 2 * unit_y && h % unit_y == 0;
+    let cols_ok = w >= 2 * unit_x && w % unit_x == 0;
+    // cut between rows or between columns (a one-row image can only be cut between columns; an
+    // error tied to the column position survives a row cut)
+    let pick = crate::rng::mix(op.dataseed ^ 0x3333, (w * h) as u64);
+    let by_rows = match (rows_ok, cols_ok) {
+        (true, true) => pick % 3 != 0,
+        (true, false) => true,
+        (false, true) => false,
+        (false, false) => return None,
+    };
+    let (len, unit) = if by_rows { (h, unit_y) } else { (w, unit_x) };
+    let cuts = len / unit - 1;
+    let r = unit * (1 + ((pick >> 8) % cuts as u64) as usize);
+    let (first, second) = if by_rows { (row_band(input, 0, r), row_band(input, r, h)) } else { (col_band(input, 0, r), col_band(input, r, w)) };
     stats.band_checks.fetch_add(1, Ordering::Relaxed);
-    let (a, b) = (ref_eval(&top, op), ref_eval(&bottom, op));
+    let (a, b) = (ref_eval(&first, op), ref_eval(&second, op));
+    let what = if by_rows { "rows" } else { "columns" };
     let fail = |k: &str, m: String| Some((format!("I4:{k}:{}", cs.name), m));
     match (&a, &b) {
-        (Outcome::Ok(va), Outcome::Ok(vb)) => match stack_rows(va, vb) {
+        (Outcome::Ok(va), Outcome::Ok(vb)) => match if by_rows { stack_rows(va, vb) } else { stack_cols(va, vb) } {
+            // a subsampled encode may take a block's chroma from any pixel of the block (the
+            // property says so, and the pinned code's choice does depend on the image width):
+            // only the luma plane has to agree there
+            Some(st) if cs.needs_cfg && (op.cfg.ssx > 0 || op.cfg.ssy > 0) && luma_agrees(out, &st, input) => None,
             Some(st) if vals_agree(out, &st, input) => None,
-            Some(_) => fail("bands", format!("{}: the {w}x{h} image converted whole differs from its rows 0..{r} and {r}..{h} converted separately and stacked", cs.name)),
-            None => fail("bands-shape", format!("{}: the two bands of the {w}x{h} image (cut at row {r}) convert to results that do not fit together", cs.name)),
+            Some(_) => fail("bands", format!("{}: the {w}x{h} image converted whole differs from its {what} 0..{r} and {r}..{len} converted separately and put together", cs.name)),
+            None => fail("bands-shape", format!("{}: the two bands of the {w}x{h} image ({what} cut at {r}) convert to results that do not fit together", cs.name)),
         },
-        _ => fail("bands-outcome", format!("{}: the whole {w}x{h} image converts, its bands (cut at row {r}) give {} and {}", cs.name, a.brief(), b.brief())),
+        _ => fail("bands-outcome", format!("{}: the whole {w}x{h} image converts, its bands ({what} cut at {r}) give {} and {}", cs.name, a.brief(), b.brief())),
     }
 }
 
